@@ -51,6 +51,25 @@ def sweep():
             yield dict(kind="manual", params=p)
 
 
+def longest_names():
+    """Seeds with so many digits that the generated file name is 246-255 characters long (255 is the usual limit
+    of one path component): the name must still state the whole seed (and two such seeds must not share a file)."""
+    try:
+        name_max = os.pathconf(os.path.join(boards.scratch_dir(), "inputs"), "PC_NAME_MAX")
+    except (OSError, ValueError, AttributeError):
+        name_max = 255
+    name_max = min(int(name_max), 255)
+    for fd in (False, True):
+        base = len("robot__w1_l1_r3_rb10_lb20_tb30_lt40.py") + (len("_force_down") if fd else 0)
+        for total in (name_max - 9, name_max - 7, name_max - 6, name_max - 3, name_max - 1, name_max):
+            digits = total - base
+            p = dict(seed=int("7" + "3" * (digits - 1)), width=1, length=1, max_reward=3, rb=10, lb=20, tb=30, lt=40,
+                     force_down=fd)
+            yield dict(kind="cli", params=p)
+            q = dict(p, seed=p["seed"] + 1)
+            yield dict(kind="pair", a=p, b=q)
+
+
 PCT = st.integers(1, 99)
 
 
@@ -91,6 +110,7 @@ def manual_boards(draw):
 def phases(tier):
     return [Phase("whole-percent-sweep", enum=sweep, exhaustive=True,
                   note="k = 1..99 for each probability via main(), prob_to_str and the manual entry point"),
+            Phase("longest-file-names", enum=longest_names, note="seeds of 200+ digits: names of 246-255 characters"),
             Phase("parameter-pairs", strategy=pairs, examples=(250, 15000)),
             Phase("hand-made-boards", strategy=manual_boards, examples=(250, 8000))]
 
